@@ -2,6 +2,7 @@ package main
 
 import (
 	"fmt"
+	"strconv"
 	"strings"
 )
 
@@ -30,7 +31,7 @@ func dirtyScript(rng *Rng, id string, withNext, canPanic bool) []Action {
 		}
 		switch rng.Intn(14) {
 		case 12:
-			s = append(s, Action{Op: rng.Pick([]string{"copy", "copy", "introspect", "cancelreq"})})
+			s = append(s, Action{Op: rng.Pick([]string{"copy", "copy", "introspect", "cancelreq", "buildurl"}), S: "route" + strconv.Itoa(rng.Intn(4))})
 		case 13:
 			s = append(s, Action{Op: "usecopy", S: "bgkey", V: id})
 		case 0, 1:
@@ -154,7 +155,7 @@ func genC10(mode string) func(rng *Rng, sc *Scenario) {
 func obsFields(v string) map[string]string {
 	out := map[string]string{}
 	// p=... d=... e=[...] ab=.. st=.. len=.. [req=..] [raw=..] resp=..
-	marks := []string{"p=", " d=", " e=[", " ab=", " st=", " len=", " req=", " raw=", " resp="}
+	marks := []string{"p=", " d=", " e=[", " ab=", " st=", " len=", " req=", " raw=", " resp=", " acc="}
 	pos := make([]int, len(marks))
 	for i, m := range marks {
 		pos[i] = strings.Index(v, m)
@@ -203,8 +204,8 @@ func classifyLeak(got, want *ReqRec) string {
 			return "leak-abort"
 		case a["st"] != b["st"] || a["len"] != b["len"] || a["raw"] != b["raw"] || a["resp"] != b["resp"]:
 			return "leak-writer"
-		case a["req"] != b["req"]:
-			return "leak-request"
+		case a["req"] != b["req"] || a["acc"] != b["acc"]:
+			return "leak-request" // the request itself or what the request-derived getters (accepted types, query, content type, client IP, cookie, posted form) return
 		}
 	}
 	return "outcome"
